@@ -276,6 +276,16 @@ func (s *State) proveQuick(goal string) bool {
 		return false
 	}
 	o := &Obligation{Cmds: s.cmds, Goal: goal, Expect: "unsat"}
+	var qk string
+	if c := s.eng.cache; c != nil {
+		qk = c.keyOf("quick", s.cmds, goal)
+		if c.known["Q+"+qk] {
+			return true
+		}
+		if c.known["Q-"+qk] {
+			return false
+		}
+	}
 	script := s.eng.buildScript(o, "cvc5")
 	f, err := os.CreateTemp("", "quick*.smt2")
 	if err != nil {
@@ -286,6 +296,15 @@ func (s *State) proveQuick(goal string) bool {
 	f.Close()
 	s.eng.quickQueries++
 	r := runSolver(context.Background(), solverCfg{"z3", func(f string, t int) []string { return []string{"z3", "-t:400", f} }}, f.Name(), 2)
+	if c := s.eng.cache; c != nil && (r.answer == "unsat" || r.answer == "sat") {
+		// only definite answers are remembered (a timeout may turn into an answer on a quieter machine; either way the
+		// result only decides whether a wrap-around term is simplified, which is sound in both cases)
+		if r.answer == "unsat" {
+			c.note("Q+" + qk)
+		} else {
+			c.note("Q-" + qk)
+		}
+	}
 	return r.answer == "unsat"
 }
 
@@ -433,12 +452,54 @@ func (e *Engine) solveAll(obls []*Obligation, workdir string, timeout int, jobs 
 	os.MkdirAll(workdir, 0o755)
 	sem := make(chan struct{}, jobs)
 	var wg sync.WaitGroup
+	// verdict cache: identical queries that were discharged before are not solved again
+	keysOf := map[*Obligation]string{}
+	if e.cache != nil {
+		var kw sync.WaitGroup
+		var kmu sync.Mutex
+		for _, o := range obls {
+			if o.Trivial || o.Expect != "unsat" || o.Kind == "anchor" || o.Kind == "spec-error" || o.Kind == "unsupported" || o.Kind == "vacuity" {
+				continue
+			}
+			kw.Add(1)
+			go func(o *Obligation) {
+				defer kw.Done()
+				sem <- struct{}{}
+				k := e.cache.key(o)
+				<-sem
+				kmu.Lock()
+				keysOf[o] = k
+				kmu.Unlock()
+			}(o)
+		}
+		kw.Wait()
+		if os.Getenv("GOVC_TIMING") != "" {
+			fmt.Fprintf(os.Stderr, "timing: cache keys for %d obligations\n", len(keysOf))
+		}
+		if !thorough {
+			for o, k := range keysOf {
+				if e.cache.known[k] {
+					o.Status = "discharged"
+					o.Solver = "cache"
+					o.Detail = "identical query discharged in an earlier run (verdict cache)"
+				}
+			}
+		}
+		defer func() {
+			for o, k := range keysOf {
+				if o.Status == "discharged" && o.Solver != "cache" {
+					e.cache.note(k)
+				}
+			}
+			e.cache.flush()
+		}()
+	}
 	// pass 1: chains of obligations along one path are sent to one incremental z3 process each
 	if !thorough {
 		var batches [][]*Obligation
 		var cur []*Obligation
 		for _, o := range obls {
-			if o.Trivial || o.Expect != "unsat" || o.Kind == "anchor" || o.Kind == "spec-error" || o.Kind == "unsupported" || o.Kind == "vacuity" {
+			if o.Trivial || o.Expect != "unsat" || o.Kind == "anchor" || o.Kind == "spec-error" || o.Kind == "unsupported" || o.Kind == "vacuity" || o.Status == "discharged" {
 				continue
 			}
 			if len(cur) > 0 && (!isPrefix(cur[len(cur)-1].Cmds, o.Cmds) || len(cur) >= 40) {
@@ -482,7 +543,19 @@ func (e *Engine) solveAll(obls []*Obligation, workdir string, timeout int, jobs 
 			sem <- struct{}{}
 			defer func() { <-sem }()
 			for n, i := range idxs {
-				e.solveOne(i, obls[i], workdir, timeout, thorough)
+				var vk string
+				if e.cache != nil {
+					vk = "V+" + e.cache.keyOf("vacuity", obls[i].Cmds, "")
+					if !thorough && e.cache.known[vk] {
+						obls[i].Status, obls[i].Solver, obls[i].Detail = "discharged", "cache", "identical reachability query answered in an earlier run (verdict cache)"
+					}
+				}
+				if obls[i].Status != "discharged" {
+					e.solveOne(i, obls[i], workdir, timeout, thorough)
+					if obls[i].Status == "discharged" && e.cache != nil {
+						e.cache.note(vk) // a solver answered sat (the point is reachable) or none found a contradiction within the budget
+					}
+				}
 				if obls[i].Status == "discharged" {
 					for _, j := range idxs[n+1:] {
 						obls[j].Status = "discharged"
